@@ -1,7 +1,17 @@
 """Non-Verus engines (Kani overlays, bounded native stand-ins), replay, per-property texts."""
-import json, os, subprocess, time
+import json, os, re, subprocess, time, tempfile, shutil
+from . import kani as K
 
 VERIF = os.path.dirname(os.path.dirname(os.path.abspath(__file__)))
+REPO = os.environ.get('VP_REPO', '/repo')
+
+# property -> Kani harness groups that are part of its deciding step
+KANI_FOR = {
+    'C13': ['swar_kernel'],
+    'C01': ['swar_kernel'],
+    'C14': ['swar_kernel'],
+    'C15': ['comb'],
+}
 
 LEVELS = {}          # property -> level category (default proof)
 EXPLANATIONS = {}
@@ -17,15 +27,101 @@ def level_of(prop):
 
 
 def explanation_of(prop):
-    return EXPLANATIONS.get(prop, 'contracts woven into mechanically extracted real function bodies, discharged by Verus; see DESIGN.md section 6/' + prop)
+    return EXPLANATIONS.get(prop, 'contracts woven into mechanically extracted real function bodies, discharged by Verus (and Kani where listed); see DESIGN.md section 6/' + prop)
 
 
 def assumptions_of(prop, trusted):
-    return ASSUMPTIONS_COMMON + ['every external_body / assume_specification / uninterp item listed in coverage.trusted_base']
+    a = list(ASSUMPTIONS_COMMON)
+    a.append('every external_body / assume_specification / uninterp item listed in coverage.trusted_base')
+    if prop in KANI_FOR:
+        a.append('Kani 0.68 / CBMC 6.11: harnesses listed under coverage.back_ends.kani; parametricity for the finite combinator table (C15)')
+    return a
 
 
 def run_engines(prop, tier, seed):
-    return []
+    out = []
+    for g in KANI_FOR.get(prop, []):
+        r = K.run_harness_group(g)
+        er = {'name': 'kani:' + g, 'kind': 'kani', 'status': r['status'], 'reason': r.get('reason', ''), 'wall_s': r.get('wall_s', 0.0),
+              'harnesses': r['harnesses'], 'complete': r.get('complete'), 'cmd': r.get('cmd'), 'cache': r.get('cache'),
+              'obligations': len(K.HARNESSES[g]['harnesses']),
+              'discharged': sum(1 for h in r['harnesses'] if h.get('result') == 'successful'),
+              'trusted': ['Kani/CBMC back end for ' + g],
+              'samples': [{'obligation': 'kani:%s::%s' % (g, h['harness']), 'kind': 'kani harness', 'text': K.HARNESSES[g]['what'], 'checks': h.get('checks_total')} for h in r['harnesses'][:2]],
+              'failures': []}
+        for h in r['harnesses']:
+            if h.get('result') == 'failed':
+                er['failures'].append({
+                    'engine': 'kani', 'kind': 'kani_harness', 'fn': K.HARNESSES[g].get('fn') or 'flussab::parser (combinator table)',
+                    'clause': 'kani:%s::%s' % (g, h['harness']), 'tags': [prop],
+                    'message': 'Kani harness %s FAILED: %s' % (h['harness'], '; '.join(h.get('failed_checks', [])[:4])),
+                    'rendered': (h.get('playback') or '')[:3000],
+                    'clause_text': K.HARNESSES[g]['what'],
+                    'site': ((K.HARNESSES[g]['file'], 0), 0),
+                    'counterexample': {'concrete_values': h.get('concrete_bytes')},
+                    'scenario': {'kind': 'kani_playback', 'group': g, 'harness': h['harness'], 'values': h.get('concrete_bytes')},
+                })
+        out.append(er)
+    return out
+
+
+# ------------------------------------------------------------------------------------------ replay
+
+SHIM = '''
+    #[allow(dead_code)]
+    mod kani {
+        use std::cell::RefCell;
+        thread_local! { static Q: RefCell<Option<Vec<Vec<u8>>>> = RefCell::new(None); }
+        fn load() -> Vec<Vec<u8>> {
+            let s = std::env::var("VP_REPLAY_VALUES").unwrap_or_default();
+            s.split(';').filter(|x| !x.is_empty()).map(|v| v.split(',').filter(|b| !b.trim().is_empty()).map(|b| b.trim().parse::<u8>().expect("VP-REPLAY-INFRA-ERROR bad value")).collect()).collect()
+        }
+        pub fn any<T: Copy>() -> T {
+            Q.with(|q| {
+                let mut q = q.borrow_mut();
+                if q.is_none() { let mut v = load(); v.reverse(); *q = Some(v); }
+                let bytes = q.as_mut().unwrap().pop().expect("VP-REPLAY-INFRA-ERROR ran out of concrete values");
+                assert_eq!(bytes.len(), std::mem::size_of::<T>(), "VP-REPLAY-INFRA-ERROR size mismatch");
+                unsafe { std::ptr::read_unaligned(bytes.as_ptr() as *const T) }
+            })
+        }
+    }
+'''
+
+
+def replay_kani(sc):
+    g = sc['group']
+    h = K.HARNESSES[g]
+    ov = K.overlay_text(h['overlay'])
+    modname = re.search(r'mod (verif_kani_\w+)', ov).group(1)
+    ov = ov.replace('#[cfg(kani)]', '#[cfg(test)]')
+    ov = re.sub(r'#\[kani::unwind\(\d+\)\]\s*', '', ov)
+    ov = ov.replace('#[kani::proof]', '#[test]')
+    ov = re.sub(r'(mod %s \{)' % modname, r'\1' + SHIM, ov, count=1)
+    tmp = tempfile.mkdtemp(prefix='vp-replay-')
+    try:
+        subprocess.run('cd %s && tar cf - --exclude=target --exclude=.git . | (cd %s && tar xf -)' % (REPO, tmp), shell=True, check=True)
+        with open(os.path.join(tmp, h['file']), 'a') as f:
+            f.write('\n' + ov)
+        vals = ';'.join(v for v in (sc.get('values') or []))
+        env = dict(os.environ, CARGO_NET_OFFLINE='true', CARGO_TARGET_DIR=os.path.join(tmp, 'target'), VP_REPLAY_VALUES=vals)
+        p = subprocess.run(['cargo', 'test', '--offline', '-p', h['crate'], '--lib', '%s::%s' % (modname, sc['harness']), '--', '--nocapture'],
+                           cwd=tmp, env=env, capture_output=True, text=True, timeout=900)
+        out = p.stdout + p.stderr
+        print(out[-2500:])
+        if 'VP-REPLAY-INFRA-ERROR' in out:
+            print('NOT-REPRODUCED (replay infrastructure error)')
+            return 0
+        if re.search(r'test result: FAILED', out) or 'panicked at' in out:
+            print('REPRODUCED: the concrete values of the verifier make the real code fail the harness assertion')
+            return 1
+        if re.search(r'test result: ok. 1 passed', out):
+            print('NOT-REPRODUCED')
+            return 0
+        print('NOT-REPRODUCED (replay build problem)')
+        return 0
+    finally:
+        shutil.rmtree(tmp, ignore_errors=True)
 
 
 def replay(path):
@@ -38,5 +134,7 @@ def replay(path):
         print(doc.get('verifier_output'))
         print('NOT-REPRODUCED (no-failing-input-found)')
         return 0
-    print('scenario replay not yet built for kind', sc.get('kind'))
+    if sc.get('kind') == 'kani_playback':
+        return replay_kani(sc)
+    print('unknown scenario kind', sc.get('kind'))
     return 0
